@@ -30,70 +30,70 @@ import (
 // configuration
 
 type g2lUnit struct {
-	out       string            // Lean module name under Generated: "FnSemver"
-	ns        string            // Lean namespace suffix: "Semver"
-	pkgDir    string            // "semver"
-	fns       []string          // function names; methods as "Recv.Name"
-	checked   map[string]bool   // functions translated in checked-int64 mode
-	absTypes  map[string]string // Go named type -> Lean type variable ("Hash" -> "H")
-	absFuncs  map[string]string // Go function -> Lean parameter name ("NodeHash" -> "node")
-	absSigs   map[string]string // Lean parameter name -> Lean type ("node" -> "H → H → H")
-	absVars   map[string]string // Go package variable -> Lean parameter name ("emptyHash" -> "empty")
-	pkgVars   map[string]string // Go package variable -> Lean constant (regenerated table in Generated/Facts.lean)
-	sumTypes  map[string][]string // interface -> the struct types that implement it: emitted as an inductive sum
-	embedGet  map[string]string   // method name -> embedded field it returns ("Comment" -> "Comments")
-	printfTo  map[string]string   // "printer.printf" -> the bytes.Buffer field the method formats into
-	accumTypes map[string]bool  // foreign types treated as byte accumulators ("hash.Hash": Write appends, Sum hashes)
-	mutCalls  map[string]string // statement calls that replace their argument: "sort.Strings" -> "sortStrings"
-	ignoreCalls map[string]bool // method names whose calls (as statements) are dropped: "Close"
-	errFields map[string]bool   // error struct types whose (string / integer) fields are kept in the error text
-	errCarry  map[string]bool   // error struct types whose single field is returned in the (otherwise nil) first result slot
-	nonNilIfaces map[string]bool // interface-typed values of these types are never nil (`x == nil` is false)
-	stdCalls  map[string]stdFn  // source text of a call's function expression -> GoRt function (e.g. binary.BigEndian.Uint32)
-	absCalls  map[string]string // source text of a call's function expression -> Lean parameter (":recv" suffix: pass the root receiver)
-	ifaces    map[string]string // interface type name -> Lean type of the value (its single method is application)
-	imports   []string          // extra Lean imports
-	opens     []string          // extra namespaces to open
-	externs   map[string]string // calls to functions of OTHER units: "semver.IsValid" -> "ModVerif.Generated.Semver.IsValid"
-	externFx  map[string]bool   // extern is effectful (in M)
-	externFue map[string]bool   // extern takes fuel
-	structNames []string        // struct types of the package to emit
-	noEq      map[string]bool   // structs without DecidableEq (function fields)
-	structFields map[string][]string // struct -> the fields to keep (others are dropped; functions touching them are untranslatable)
-	panicCalls map[string]bool  // methods that never return (they panic): "input.Error"
-	exclude   map[string]bool   // functions never pulled in automatically (only called on statically dead branches)
-	inout     map[string]string // function -> name of the map/pointer parameter (or receiver) it mutates; returned as an extra last result
-	effFns    map[string]string // function -> Lean type of one effect-log entry (its result becomes R × List entry)
-	ifaceStructs map[string]string // multi-method interface -> Lean structure text (emitted verbatim); method call = field application
-	effects   map[string]string // interface method with no result -> treated as an effect appended to `effLog` (value = Lean type of one log entry)
-	preamble  string            // extra Lean text after the struct declarations
-	worldFns  map[string]string // function -> Lean type W of the world it threads: extra last parameter `world : W`, result R × W
-	worldCalls map[string]string // source text of a call's function expression -> Lean function `args… → W → (result × W)` (an external call that reads / changes the world)
-	foreignTypes map[string]string // "zip.Reader" -> Lean structure name (declared in the imports / preamble) for a struct type of another package
-	limitedReaders bool          // io.LimitedReader{R, N} values are `LimitedReader` structures; io.Copy(w, lr) reads through `limRead`
-	walkCalls map[string]string  // "filepath.Walk" -> abstract parameter `Bytes → FsTree FileInfo` (what the file system holds at the root): Walk(root, func…) becomes `walkTree` over that tree with the hoisted closure
-	heapTypes map[string]string  // struct type -> field of the world structure `Heap` holding its objects: a pointer to it is an Int (0 = nil)
-	interior  map[string]string  // struct type whose pointers point INTO a heap object: "LParen" -> "LineBlock.LParen" (the pointer is the owner's pointer)
-	ownerPtr  map[string]string  // struct type embedded in every variant of a sum type: "Comments" -> "Expr" (a pointer to it is the owning sum value)
-	ownerCalls map[string]bool   // methods that return the pointer to the embedded struct of their receiver: "Comment"
-	sumNil    map[string]bool    // sum types with a nil value (constructor `nil`)
-	worldObjs map[string]bool    // struct types whose (single) instance lives in the threaded world: fields of a value of such a type are fields of `world`, its methods take no receiver
-	onceCalls map[string]string  // "c.initOnce.Do" -> Boolean world field: sync.Once.Do(f) runs the method value f unless the field is set, and sets it
-	cacheCalls map[string]string // "c.record.Do" -> world field holding the memo table (association list): parCache.Do(key, func) looks the key up and otherwise runs the function and stores its result
-	viewVars  map[string]bool    // "Fn.var": a []string variable that aliases the tail of a heap Line's Token: a (line pointer, offset) pair (TokRef)
-	errConv   map[string]string  // named type of the package that implements error -> Lean function to the error value (Option String): ErrorList -> errListErr
-	optFuncs  map[string]string  // named function type that may be nil (VersionFixer) -> Lean function type; values are `Option` of it
-	valueIdents map[string]string // package-level variable -> Lean term (a function value defined in the preamble)
-	errStructs map[string]bool   // foreign struct types that are errors with an `Err` field ("module.ModuleError"): a type assertion on an error tests the constructor name; x.Err is the inner error
-	anyType   string             // Lean type standing for interface{} (the value type of the memo tables)
-	localTypes map[string]string // types declared inside function bodies -> Lean structure of the preamble ("cached" -> "Cached")
-	inlineFns map[string]bool    // plain functions compiled in place at their (statement) call sites, pointer parameters as aliases of the caller's places
-	midamble  map[string]string  // function -> hand-written Lean text emitted right before its definition (glue between regenerated functions and imported units)
-	ignoreRecover bool           // `defer func() { … recover() … }()` is dropped: a panic stays Err.panic
-	extraTypeVars []string       // type variables of function signatures besides the abstract types (the world type W)
-	paramStructs  []string       // struct types declared in an imported unit that take the abstract type variables as parameters ("Tree")
-	lambdaClosures bool          // `f := func(x) T { return <pure expr> }` becomes a Lean function VALUE (it can be passed on), not a hoisted definition
-	structTV  map[string]bool   // computed: struct is parametric in the abstract type variables
+	out            string              // Lean module name under Generated: "FnSemver"
+	ns             string              // Lean namespace suffix: "Semver"
+	pkgDir         string              // "semver"
+	fns            []string            // function names; methods as "Recv.Name"
+	checked        map[string]bool     // functions translated in checked-int64 mode
+	absTypes       map[string]string   // Go named type -> Lean type variable ("Hash" -> "H")
+	absFuncs       map[string]string   // Go function -> Lean parameter name ("NodeHash" -> "node")
+	absSigs        map[string]string   // Lean parameter name -> Lean type ("node" -> "H → H → H")
+	absVars        map[string]string   // Go package variable -> Lean parameter name ("emptyHash" -> "empty")
+	pkgVars        map[string]string   // Go package variable -> Lean constant (regenerated table in Generated/Facts.lean)
+	sumTypes       map[string][]string // interface -> the struct types that implement it: emitted as an inductive sum
+	embedGet       map[string]string   // method name -> embedded field it returns ("Comment" -> "Comments")
+	printfTo       map[string]string   // "printer.printf" -> the bytes.Buffer field the method formats into
+	accumTypes     map[string]bool     // foreign types treated as byte accumulators ("hash.Hash": Write appends, Sum hashes)
+	mutCalls       map[string]string   // statement calls that replace their argument: "sort.Strings" -> "sortStrings"
+	ignoreCalls    map[string]bool     // method names whose calls (as statements) are dropped: "Close"
+	errFields      map[string]bool     // error struct types whose (string / integer) fields are kept in the error text
+	errCarry       map[string]bool     // error struct types whose single field is returned in the (otherwise nil) first result slot
+	nonNilIfaces   map[string]bool     // interface-typed values of these types are never nil (`x == nil` is false)
+	stdCalls       map[string]stdFn    // source text of a call's function expression -> GoRt function (e.g. binary.BigEndian.Uint32)
+	absCalls       map[string]string   // source text of a call's function expression -> Lean parameter (":recv" suffix: pass the root receiver)
+	ifaces         map[string]string   // interface type name -> Lean type of the value (its single method is application)
+	imports        []string            // extra Lean imports
+	opens          []string            // extra namespaces to open
+	externs        map[string]string   // calls to functions of OTHER units: "semver.IsValid" -> "ModVerif.Generated.Semver.IsValid"
+	externFx       map[string]bool     // extern is effectful (in M)
+	externFue      map[string]bool     // extern takes fuel
+	structNames    []string            // struct types of the package to emit
+	noEq           map[string]bool     // structs without DecidableEq (function fields)
+	structFields   map[string][]string // struct -> the fields to keep (others are dropped; functions touching them are untranslatable)
+	panicCalls     map[string]bool     // methods that never return (they panic): "input.Error"
+	exclude        map[string]bool     // functions never pulled in automatically (only called on statically dead branches)
+	inout          map[string]string   // function -> name of the map/pointer parameter (or receiver) it mutates; returned as an extra last result
+	effFns         map[string]string   // function -> Lean type of one effect-log entry (its result becomes R × List entry)
+	ifaceStructs   map[string]string   // multi-method interface -> Lean structure text (emitted verbatim); method call = field application
+	effects        map[string]string   // interface method with no result -> treated as an effect appended to `effLog` (value = Lean type of one log entry)
+	preamble       string              // extra Lean text after the struct declarations
+	worldFns       map[string]string   // function -> Lean type W of the world it threads: extra last parameter `world : W`, result R × W
+	worldCalls     map[string]string   // source text of a call's function expression -> Lean function `args… → W → (result × W)` (an external call that reads / changes the world)
+	foreignTypes   map[string]string   // "zip.Reader" -> Lean structure name (declared in the imports / preamble) for a struct type of another package
+	limitedReaders bool                // io.LimitedReader{R, N} values are `LimitedReader` structures; io.Copy(w, lr) reads through `limRead`
+	walkCalls      map[string]string   // "filepath.Walk" -> abstract parameter `Bytes → FsTree FileInfo` (what the file system holds at the root): Walk(root, func…) becomes `walkTree` over that tree with the hoisted closure
+	heapTypes      map[string]string   // struct type -> field of the world structure `Heap` holding its objects: a pointer to it is an Int (0 = nil)
+	interior       map[string]string   // struct type whose pointers point INTO a heap object: "LParen" -> "LineBlock.LParen" (the pointer is the owner's pointer)
+	ownerPtr       map[string]string   // struct type embedded in every variant of a sum type: "Comments" -> "Expr" (a pointer to it is the owning sum value)
+	ownerCalls     map[string]bool     // methods that return the pointer to the embedded struct of their receiver: "Comment"
+	sumNil         map[string]bool     // sum types with a nil value (constructor `nil`)
+	worldObjs      map[string]bool     // struct types whose (single) instance lives in the threaded world: fields of a value of such a type are fields of `world`, its methods take no receiver
+	onceCalls      map[string]string   // "c.initOnce.Do" -> Boolean world field: sync.Once.Do(f) runs the method value f unless the field is set, and sets it
+	cacheCalls     map[string]string   // "c.record.Do" -> world field holding the memo table (association list): parCache.Do(key, func) looks the key up and otherwise runs the function and stores its result
+	viewVars       map[string]bool     // "Fn.var": a []string variable that aliases the tail of a heap Line's Token: a (line pointer, offset) pair (TokRef)
+	errConv        map[string]string   // named type of the package that implements error -> Lean function to the error value (Option String): ErrorList -> errListErr
+	optFuncs       map[string]string   // named function type that may be nil (VersionFixer) -> Lean function type; values are `Option` of it
+	valueIdents    map[string]string   // package-level variable -> Lean term (a function value defined in the preamble)
+	errStructs     map[string]bool     // foreign struct types that are errors with an `Err` field ("module.ModuleError"): a type assertion on an error tests the constructor name; x.Err is the inner error
+	anyType        string              // Lean type standing for interface{} (the value type of the memo tables)
+	localTypes     map[string]string   // types declared inside function bodies -> Lean structure of the preamble ("cached" -> "Cached")
+	inlineFns      map[string]bool     // plain functions compiled in place at their (statement) call sites, pointer parameters as aliases of the caller's places
+	midamble       map[string]string   // function -> hand-written Lean text emitted right before its definition (glue between regenerated functions and imported units)
+	ignoreRecover  bool                // `defer func() { … recover() … }()` is dropped: a panic stays Err.panic
+	extraTypeVars  []string            // type variables of function signatures besides the abstract types (the world type W)
+	paramStructs   []string            // struct types declared in an imported unit that take the abstract type variables as parameters ("Tree")
+	lambdaClosures bool                // `f := func(x) T { return <pure expr> }` becomes a Lean function VALUE (it can be passed on), not a hoisted definition
+	structTV       map[string]bool     // computed: struct is parametric in the abstract type variables
 }
 
 type g2lPkg struct {
@@ -168,49 +168,49 @@ func g2lLoad(dir string) *g2lPkg {
 // translation context
 
 type g2lFn struct {
-	u        *g2lUnit
-	p        *g2lPkg
-	fd       *ast.FuncDecl
-	goName   string
-	leanName string
-	checked  bool
-	pure     bool // no effects at all: emitted as a plain definition
-	fuel     bool // takes a fuel argument
-	rec      bool // self-recursive
-	absUsed  []string
-	results  []*types.Var
-	named    bool
-	tmp      int
-	loops    []string // hoisted loop definitions (Lean text), in dependency order
-	nloop    int
-	retType  string
-	inLoop   *g2lLoop
-	deferBody []ast.Stmt // body of a leading `defer func() {…}()` that only touches the named results
-	inDefer  bool
-	brk      *brkTarget
-	monad    string
-	want     types.Type // expected type of the expression being compiled (for nil)
-	objNames map[types.Object]string
-	usesEff  bool
-	inoutName string            // Lean name of the in-out parameter of this function
-	inoutIdx  int               // its position among the parameters (receiver first)
-	endK      kont
-	closures  map[types.Object]*g2lClosure
-	closOuts  []string // while compiling a closure body: the captured variables it modifies (returned with the result)
-	inClosure bool
-	labels    map[string]int    // top-level labels of the body -> statement index
-	effType  string
+	u            *g2lUnit
+	p            *g2lPkg
+	fd           *ast.FuncDecl
+	goName       string
+	leanName     string
+	checked      bool
+	pure         bool // no effects at all: emitted as a plain definition
+	fuel         bool // takes a fuel argument
+	rec          bool // self-recursive
+	absUsed      []string
+	results      []*types.Var
+	named        bool
+	tmp          int
+	loops        []string // hoisted loop definitions (Lean text), in dependency order
+	nloop        int
+	retType      string
+	inLoop       *g2lLoop
+	deferBody    []ast.Stmt // body of a leading `defer func() {…}()` that only touches the named results
+	inDefer      bool
+	brk          *brkTarget
+	monad        string
+	want         types.Type // expected type of the expression being compiled (for nil)
+	objNames     map[types.Object]string
+	usesEff      bool
+	inoutName    string // Lean name of the in-out parameter of this function
+	inoutIdx     int    // its position among the parameters (receiver first)
+	endK         kont
+	closures     map[types.Object]*g2lClosure
+	closOuts     []string // while compiling a closure body: the captured variables it modifies (returned with the result)
+	inClosure    bool
+	labels       map[string]int // top-level labels of the body -> statement index
+	effType      string
 	labelFrames  []*labelFrame
-	gotoVars     map[string]bool // results of a goto issued inside a loop: the code up to `pure (Ctl.ret g)` leaves the loop
-	inlineRanges [][2]token.Pos // source ranges of the functions whose bodies are being compiled inline
-	nilAlias map[types.Object]bool // inlined pointer parameters whose argument is nil
+	gotoVars     map[string]bool       // results of a goto issued inside a loop: the code up to `pure (Ctl.ret g)` leaves the loop
+	inlineRanges [][2]token.Pos        // source ranges of the functions whose bodies are being compiled inline
+	nilAlias     map[types.Object]bool // inlined pointer parameters whose argument is nil
 	pendingLabel string
 	loopLabels   map[string]labelTarget
-	aliases  map[types.Object]ast.Expr // local pointer variables initialised with &X[i]: they stand for the place X[i]
-	worldVar *types.Var // synthetic variable standing for the threaded world (nil: the function does not thread one)
-	worldType string
-	usedName map[string]bool
-	structs  map[string]*types.Named
+	aliases      map[types.Object]ast.Expr // local pointer variables initialised with &X[i]: they stand for the place X[i]
+	worldVar     *types.Var                // synthetic variable standing for the threaded world (nil: the function does not thread one)
+	worldType    string
+	usedName     map[string]bool
+	structs      map[string]*types.Named
 }
 
 type g2lLoop struct {
